@@ -42,7 +42,7 @@ _st = collections.OrderedDict()
 for f in sorted(glob.glob(os.path.join(here, "seeded", "*", "meta.json"))):
     m = json.load(open(f))
     name = f.split("/")[-2]
-    _m = re.search(r"-r(\d)m", name)
+    _m = re.search(r"-r(\d+)m", name)
     rnd = "round " + (_m.group(1) if _m else "1")
     d = _st.setdefault(rnd, collections.Counter())
     fd = m.get("first_run_detected", m.get("detected"))
@@ -52,7 +52,7 @@ for f in sorted(glob.glob(os.path.join(here, "seeded", "*", "meta.json"))):
     d["now_concrete" if m.get("detected_with_concrete_input") else "now_noinput" if m.get("detected") else "now_missed"] += 1
 out += ["", "First outcome per round (quick tier, the property's own check plus the cross-checks listed in meta.json) and outcome now, after the checks were strengthened; for round 1 the 'first' column is the outcome at the first re-evaluation, some of its seeds had been used to strengthen checks before:", "",
         "| round | seeds | first: concrete input | first: no-failing-input-found | first: missed | now: concrete | now: no input | now: missed |", "|---|---|---|---|---|---|---|---|"]
-for rnd in sorted(_st):
+for rnd in sorted(_st, key=lambda r: int(r.split()[1])):
     d = _st[rnd]
     out.append(f"| {rnd} | {d['n']} | {d['first_concrete']} | {d['first_noinput']} | {d['first_missed']} | {d['now_concrete']} | {d['now_noinput']} | {d['now_missed']} |")
 # per-property status from cfg + last evidence
